@@ -116,6 +116,9 @@ func Actions(version string) []Action {
 		{"topic-carol", "m.room.topic", "", Carol, `{"topic":"carol"}`},
 		{"name-bob", "m.room.name", "", Bob, `{"name":"bob"}`},
 		{"carol-own-state", "x.user", Carol, Carol, `{"v":1}`},
+		// state events of the special auth types under a NON-empty state key: ordinary state, not the room's join rules / power levels
+		{"jr-legacy-key", "m.room.join_rules", "legacy", Alice, `{"join_rule":"invite"}`},
+		{"pl-legacy-key", "m.room.power_levels", "legacy", Alice, pl(a100, `,"events_default":100`)},
 	}
 	if row.Knock {
 		as = append(as, Action{"jr-knock", "m.room.join_rules", "", Alice, `{"join_rule":"knock"}`}, Action{"dave-knocks", "m.room.member", Dave, Dave, member("knock")})
